@@ -62,6 +62,8 @@ CASES = [
     ("traitdefault", "trait T { fn req(&self, x: u32) -> u32; fn d(&self, x: u32) -> u32 { self.req(x) + 1 } }",
      ("expect", ["(ext_req : SelfT → Nat → Nat)", "(self : SelfT)", "ext_req self x"]), ("T", "d")),
     ("opaque-sum", "fn f(m: &BTreeMap<K, u64>) -> u64 { m.values().sum::<u64>() }", ("expect", ["Rs.usum Rs.U64_MAX (m.map (fun kv => kv.2))"])),
+    ("findalias", "pub struct T { pub id: u32, pub on: bool }\nimpl T { fn set(&mut self, b: bool) { self.on = b; } }\npub struct W { pub ts: Vec<T> }\nimpl W { fn f(&mut self, id: u32) { let h = self.ts.iter_mut().find(|h| h.id == id).expect(\"x\"); h.set(true); } }",
+     ("expect", ["Rs.unwrap (self.ts.findIdx? (fun h => (h.id == id)))", "Rs.index self.ts i_1", "T.set", "Rs.setIndex self.ts i_1"]), ("W", "f")),
     # ---- refused (fail closed)
     ("r-loop", "fn f() -> u32 { let mut i = 0u32; loop { i += 1; if i > 3 { break; } } i }", ("refuse", "`loop`")),
     ("r-while", "fn f(mut n: u32) -> u32 { while n > 1 { n = n / 2; } n }", ("refuse", "counted form")),
